@@ -25,10 +25,14 @@ def items(tier: str) -> List[Any]:
     full, small = alphabets(tier)
     out: List[Any] = [("direct", s) for s in spaces.layered(full, small, tier)]
     sh = []
-    for a in small[:2]:
+    for a in small[:2] + [["txn Fee", "int 1000", ">"], ["int 1000", "txn Fee", "<="]]:
         sh += A.shuffled(a)
     seen = set(s for _, s in out)
-    for s in spaces.layered(sh, sh[:2], tier, l2_size=2, l3=False, max_subs=1):
+    for s in spaces.layered(sh, sh[:2], tier, l2_size=2, l3=False, max_subs=1, chains=False):
+        if s not in seen:
+            seen.add(s)
+            out.append(("shuffle", s))
+    for s in spaces.unresolvable_constants([x for m, x in out if m == "direct"], 3000 if tier == "quick" else 20000):
         if s not in seen:
             seen.add(s)
             out.append(("shuffle", s))
